@@ -105,6 +105,9 @@ InitB(e) ==
 InitSt ==
   [ now |-> 0, b |-> [e \in Eps |-> InitB(e)], aq |-> [x \in Bases |-> <<>>],
     log |-> <<>>, ncb |-> 0, closing |-> 0,
+    nref |-> 0,                     \* chunks handed to an output buffer by reference (evbuffer_add_reference)
+    brk |-> FALSE,                  \* event_base_loopbreak was called in this loop call
+    dead |-> FALSE,                 \* the bases were freed (last step of a history)
     fs |-> 0,                       \* directed generation: index of the forced script (0 = free generation)
     dv |-> {},                      \* known-finding triggers met so far
     open |-> FALSE,                 \* behaviour the properties leave open was met
@@ -445,6 +448,9 @@ ApplyExtra(S, e, xa) ==
     [] xa = "clr" -> [S EXCEPT !.b[e].cbs = FALSE]
     [] xa = "w1" -> IF S.b[e].fin \/ S.b[e].conn = "bad" THEN S ELSE OpWrite(S, e, 1)
     [] xa = "wm0" -> OpSetWm(S, e, "R", 0, 0)
+    \* bufferevent_free(self) + event_base_loopbreak(): the loop call returns after this callback, the
+    \* finalizer of the released bufferevent is left pending (it runs in a later loop call or at event_base_free)
+    [] xa = "freebrk" -> [OpFree(S, e) EXCEPT !.brk = TRUE]
     [] OTHER -> S
 
 ----------------------------------------------------------------------------
@@ -592,7 +598,7 @@ Handle(S, it) ==
 
 RECURSIVE ProcessQ(_, _)
 ProcessQ(S, x) ==
-  IF S.aq[x] = <<>> THEN S
+  IF S.aq[x] = <<>> \/ S.brk THEN S
   ELSE LET it == Head(S.aq[x]) IN ProcessQ(Handle([S EXCEPT !.aq[x] = Tail(@)], it), x)
 
 (* with EVLOOP_NONBLOCK the loop keeps iterating (poll with zero timeout, expire timers, run
@@ -600,10 +606,14 @@ ProcessQ(S, x) ==
 RECURSIVE LoopIter(_, _, _)
 LoopIter(S, x, k) ==
   LET S1 == TimeoutProcess(Dispatch(S, x), x)
-  IN IF S1.aq[x] = <<>> THEN S1
+  IN IF S1.aq[x] = <<>> \/ S1.brk THEN S1
      ELSE IF k = 0 THEN [S1 EXCEPT !.open = TRUE]
      ELSE LoopIter(ProcessQ(S1, x), x, k - 1)
-LoopOp(S, x, t) == LoopIter([S EXCEPT !.now = @ + t, !.log = <<>>, !.ncb = 0], x, 24)
+LoopOp(S, x, t) == LoopIter([S EXCEPT !.now = @ + t, !.log = <<>>, !.ncb = 0, !.brk = FALSE], x, 24)
+
+(* the application releases whatever it still holds and calls event_base_free(): pending finalizers run there,
+   exactly once each (fc = calls of the filter's free_context so far), no user callback runs *)
+OpBaseFree(S) == [S EXCEPT !.dead = TRUE, !.b = [e \in Eps |-> [S.b[e] EXCEPT !.alive = FALSE, !.cbs = FALSE]]]
 
 ----------------------------------------------------------------------------
 (* observation after every step *)
@@ -640,14 +650,22 @@ IoReady(S) == Kind = "sock" /\ \E e \in {1, 2} : S.b[e].alive /\
                  ((S.b[e].evr /\ (S.b[e].wire > 0 \/ S.b[e].eof)) \/ (S.b[e].evw /\ ~(Stall /\ S.b[e].stalled)))
 
 Api ==
-  /\ st.closing = 0 /\ Len(hist) < Bound
+  /\ st.closing = 0 /\ Len(hist) < Bound /\ ~st.dead
   /\ LET S == [st EXCEPT !.log = <<>>] IN
      \/ \E e \in App, n \in Sizes : Has("write") /\ Legal(S, e, "write") /\ n > 0
           /\ AStep(OpWrite(S, e, n), [a |-> "write", e |-> e, n |-> n], 0)
      \/ \E e \in App, m \in {33, 34, 65, 66} : Has("trig") /\ Legal(S, e, "trig")
           /\ AStep(OpTrig(S, e, m), [a |-> "trig", e |-> e, f |-> m], 0)
+     \/ Has("basefree") /\ ForcedOK([a |-> "basefree"])
+          /\ st' = OpBaseFree(S)
+          /\ hist' = Append(hist, [a |-> "basefree", kf |-> KfMask(S.dv),
+                                   o |-> Obs(OpBaseFree(S), 0) @@ [fc |-> IF Kind = "filt" THEN 1 ELSE 0, rc |-> S.nref]])
      \/ \E e \in App, k \in Drains : Has("read") /\ Legal(S, e, "read") /\ k > 0 /\ S.b[e].in > 0
           /\ AStep(OpRead(S, e, k), [a |-> "read", e |-> e, n |-> k], 0)
+     \* like write, but the bytes are handed over by reference with a cleanup callback: once everything is
+     \* released (basefree) every cleanup has run exactly once (rc in the last observation)
+     \/ \E e \in App, n \in Sizes : Has("writeref") /\ Legal(S, e, "write") /\ n > 0
+          /\ AStep([OpWrite(S, e, n) EXCEPT !.nref = @ + 1], [a |-> "writeref", e |-> e, n |-> n], 0)
      \/ \E e \in App, m \in {2, 4, 6} : Has("enable") /\ Legal(S, e, IF m = 4 THEN "enableW" ELSE "enable") /\ ("R" \in Dirs(m) => ~S.b[e].eofd)
           /\ AStep(OpEnable(S, e, Dirs(m)), [a |-> "enable", e |-> e, m |-> m], 0)
      \/ \E e \in App, m \in {2, 4, 6} : Has("disable") /\ Legal(S, e, "disable")
@@ -661,8 +679,9 @@ Api ==
      \/ \E e \in App, tr \in Durs, tw \in Durs : Has("tmo") /\ Legal(S, e, "tmo") /\ <<S.b[e].tor, S.b[e].tow>> # <<tr, tw>>
           /\ (Has("tmor") => tw = 0) /\ (Has("tmow") => tr = 0)
           /\ AStep(OpSetTmo(S, e, tr, tw), [a |-> "tmo", e |-> e, tr |-> tr, tw |-> tw], 0)
-     \/ \E e \in App, m \in {2, 4, 6}, md \in {1, 2} : Has("flush") /\ Legal(S, e, "flush")
-          /\ (md = 2 => Has("finish") /\ ~S.b[e].fin /\ m = 4)
+     \/ \E e \in App, m \in {2, 4, 6}, md \in {0, 1, 2} : Has("flush") /\ Legal(S, e, "flush")
+          /\ (md = 0 => st.fs # 0)           \* BEV_NORMAL changes nothing: only in directed scripts
+          /\ (md = 2 => Has("finish") /\ ~S.b[e].fin /\ (m = 4 \/ (st.fs # 0 /\ ~S.b[e].lnk)))
           /\ LET R == OpFlush(S, e, Dirs(m), md)
              IN AStep(R.s, [a |-> "flush", e |-> e, m |-> m, md |-> md], R.r)
      \/ \E e \in App : Has("shut") /\ IsSock(e) /\ Legal(S, e, "shut") /\ ~S.b[e].fin /\ S.b[e].out = 0 /\ S.b[e].conn = "ok"
@@ -684,7 +703,7 @@ Api ==
 
 (* closing steps: flush out every latent timer / pending callback *)
 Closing ==
-  /\ Len(hist) >= Bound /\ st.closing < 2 * Cardinality(Bases)
+  /\ Len(hist) >= Bound /\ st.closing < 2 * Cardinality(Bases) /\ ~st.dead
   /\ LET x == IF Kind = "sock" THEN 1 + (st.closing % 2) ELSE 1
          t == IF Kind = "sock" /\ (~Quiet(st) \/ IoReady(st)) THEN 0 ELSE TEnd
          S1 == [LoopOp(st, x, t) EXCEPT !.closing = @ + 1]
@@ -736,6 +755,6 @@ NoTies == \A p, q \in Deadlines(st) : (p # q /\ Base(p[1]) = Base(q[1])) => DlOf
 AvoidKnown == st.dv \subseteq Allow
 WireOK == \A e \in Eps : st.b[e].wire <= WireCap
 GenConstraint == Len(hist) <= Bound + 4 /\ NoTies /\ ~st.open /\ AvoidKnown /\ WireOK
-Emit == (st.closing = 2 * Cardinality(Bases) /\ AvoidKnown /\ ~st.open /\ WireOK) => PrintT(ToJson(hist))
+Emit == ((st.closing = 2 * Cardinality(Bases) \/ st.dead) /\ AvoidKnown /\ ~st.open /\ WireOK) => PrintT(ToJson(hist))
 StateView == <<st>>
 =============================================================================
